@@ -61,6 +61,14 @@ claimed = {
          "ReserveResourceForWG/FreeResourcesForWG (the reserve-then-commit table), the placement algorithms and the dispatcher's completion accounting are not yet under contract."),
    note=(TB + "First-fit/completeness of nextRegion (false only if no region exists) is not stated; message interleavings are outside the technique."),
    design="5 (C09)", technique="deductive verification: WP-style VC generation over go/ssa + SMT (array loop invariants)"),
+ "C10": dict(
+   text=("The default page allocator's per-device free list (deviceMemoryStateImpl) is under contract for page sizes 2^12..2^16: registering a device appends exactly the pages of "
+         "[initialAddress, initialAddress+storageSize) in ascending order (count = storageSize >> log2PageSize, each address initialAddress + k*pageSize), pop returns and removes the head, "
+         "push appends at the back, nothing else changes. memoryAllocatorImpl.removePage (Free/RemovePage) is proved to drop the page from the allocator's live-page map. "
+         "allocatePages/Remap/Distribute/migration, the buddy allocator and the virtual-address bookkeeping are not yet under contract."),
+   note=(TB + "Assumed: storage sizes are multiples of the page size and below 2^48; the akita page table is an external component (extern declarations); deviceIDByPAddr enters through a trusted contract "
+         "(map iteration is not modelled). One genuine defect repaired (stale live-page entry after Free). Observed, not decided by a check: Driver.FreeMemory frees only the first page of a multi-page buffer."),
+   design="5 (C10)", technique="deductive verification: WP-style VC generation over go/ssa + SMT (queue view of the free list, loop invariant with page-size case split)"),
  "C11": dict(
    text=("memRangeOverlap (the predicate deciding whether a copy must flush dirty buffers) is proved equivalent to interval intersection for all "
          "non-empty ranges over the full uint64 domain. The splitting loops and completion bookkeeping are not yet under contract."),
